@@ -606,7 +606,7 @@ func optionLikeNames() {
 func main() {
 	w = hc.Start("C14")
 	w.R.Rule = "static: every entry/alias registered in the live database (base + extended): resolves, has cup, every parameterized field is a well-formed terminfo program using no more parameters than tcell supplies, unparameterized fields contain no parameter constructs, Colors agrees with the colour strings (each index 0..Colors-1 decoded by the reference SGR interpreter), RGB strings decode exactly, key table prefix-free. histories: names = registered names x {'', -color, -88color, -256color, -truecolor} + unknown/odd names; for every ordered pair (a,b) (thorough: plus triples over a ~45-name subset), under each environment setting (COLORTERM x TCELL_TRUECOLOR), from a freshly restored database: lookup(b) after lookup(a) deep-equals lookup(b) alone; plus the documented semantics of each single lookup (synthesis, environment switches, ErrTermNotFound). distinct_nontrivial = distinct (first name, environment) rows explored + static obligations"
-	w.R.Assumptions = []string{"the database is snapshotted and restored through a verif accessor (deep copy of every entry), so each pair starts from the registered state", "terminfo.LookupTerminfo is exercised (tcell.LookupTerminfo's infocmp fallback is outside the built-in database)"}
+	w.R.Assumptions = []string{"the database is snapshotted and restored through a verif accessor (deep copy of every entry), so each pair starts from the registered state", "the histories exercise terminfo.LookupTerminfo; tcell.LookupTerminfo's infocmp fallback is exercised separately through a stub infocmp the harness puts on PATH (option-like and unknown names, a colour terminal looked up twice under COLORTERM, a description with %^ and \\0)"}
 	if *hc.Replay != "" {
 		var rp struct {
 			First, Second, COLORTERM, TCELL_TRUECOLOR string
